@@ -140,6 +140,94 @@ def summarize(f, path, with_self=True):
                     x = x[:m_.start()] + x[m_.end():j] + x[j + 1:]
             return x
         outs = [(tuple((unwrap(a_), b__) for a_, b__ in c_), unwrap(r_), unwrap(fin_)) for c_, r_, fin_ in outs]
+    # a collector kept inside another collector (`SerializeTupleVariantValue { variant, items: SerializeVecValue }`) stands
+    # for its collection: the inner collector's collection field is read through
+    COLL = ("std::vec::Vec<value::Value>", "std::collections::BTreeMap<std::string::String, value::Value>")
+    inner_coll = {}
+    for ap, a_ in f.adts.items():
+        if a_.get("local") and a_["kind"] == "struct" and ap.startswith("value::"):
+            js = [j_ for j_, fl in enumerate(a_["variants"][0]["fields"]) if re.sub(r"'\w+ ", "", fl.get("ty_s", "")) in COLL]
+            if len(js) == 1:
+                inner_coll[ap] = js[0]
+    self_adt2 = f.adts.get(((b.get("impl") or {}).get("self_s") or "").split("<")[0])
+    nested = {}
+    if self_adt2 and self_adt2["kind"] == "struct":
+        for i_, fl in enumerate(self_adt2["variants"][0]["fields"]):
+            ad_ = f.adt_of(f.peel(fl["ty"])) if fl.get("ty") is not None else None
+            if ad_ in inner_coll:
+                nested[i_] = inner_coll[ad_]
+    outer_shorts = set(ap.split("::")[-1] for ap in inner_coll) | set(ap.split("::")[-1] for ap, a_ in f.adts.items() if a_.get("local") and ap.startswith("value::") and a_["kind"] == "struct")
+
+    def close_(x, open_at):
+        depth = 0
+        for j in range(open_at, len(x)):
+            if x[j] == "(":
+                depth += 1
+            elif x[j] == ")":
+                depth -= 1
+                if depth == 0:
+                    return j
+        return -1
+
+    def split_(inner):
+        out_, depth, cur = [], 0, ""
+        for ch in inner:
+            if ch in "([":
+                depth += 1
+            elif ch in ")]":
+                depth -= 1
+            if ch == "," and depth == 0:
+                out_.append(cur.strip())
+                cur = ""
+            else:
+                cur += ch
+        if cur.strip():
+            out_.append(cur.strip())
+        return out_
+
+    def unnest(x):
+        if not isinstance(x, str):
+            return x
+        for i_, j_ in nested.items():
+            x = re.sub(r"\bself\.%d\.%d\b" % (i_, j_), "self.%d" % i_, x)
+            head = "with_field(self.%d, %d, " % (i_, j_)
+            while head in x:
+                a0 = x.index(head)
+                e0 = close_(x, a0 + len("with_field"))
+                if e0 < 0:
+                    break
+                x = x[:a0] + x[a0 + len(head):e0] + x[e0 + 1:]
+        # an inner collector's constructor as a direct argument of another collector's constructor
+        changed = True
+        guard = 0
+        while changed and guard < 20:
+            changed = False
+            guard += 1
+            for m_ in re.finditer(r"(?<![\w:])(\w+)\(", x):
+                if m_.group(1) not in outer_shorts:
+                    continue
+                e0 = close_(x, m_.end() - 1)
+                if e0 < 0:
+                    continue
+                args_ = split_(x[m_.end():e0])
+                new_args = []
+                hit = False
+                for a_ in args_:
+                    m2 = re.match(r"(\w+)\(", a_)
+                    ap2 = next((ap for ap in inner_coll if m2 and ap.split("::")[-1] == m2.group(1)), None)
+                    if ap2 and close_(a_, m2.end() - 1) == len(a_) - 1:
+                        sub = split_(a_[m2.end():-1])
+                        if len(sub) == len(f.adts[ap2]["variants"][0]["fields"]):
+                            new_args.append(sub[inner_coll[ap2]])
+                            hit = True
+                            continue
+                    new_args.append(a_)
+                if hit:
+                    x = x[:m_.end()] + ", ".join(new_args) + x[e0:]
+                    changed = True
+                    break
+        return x
+    outs = [(tuple((unnest(a_), b__) for a_, b__ in c_), unnest(r_), unnest(fin_)) for c_, r_, fin_ in outs]
     # ValueSerializer is a unit struct: inside its own methods `self` and a fresh `ValueSerializer` are the same value
     if (b.get("impl") or {}).get("self_s", "").endswith("ValueSerializer"):
         unit = lambda x: re.sub(r"(?<=, )ValueSerializer(?=[,)])|(?<=\()ValueSerializer(?=[,)])", "self", x) if isinstance(x, str) else x
